@@ -210,6 +210,16 @@ def shrink(case):
         c = dict(case)
         c['maintainer'] = None
         yield c
+    sch = case.get('schedulers') or []
+    for i in range(len(sch)):
+        c = dict(case)
+        c['schedulers'] = sch[:i] + sch[i + 1:]
+        yield c
+    for i, x in enumerate(sch):
+        if len(x['tt']) > 1:
+            c = dict(case)
+            c['schedulers'] = sch[:i] + [dict(x, tt=x['tt'][:-1])] + sch[i + 1:]
+            yield c
     # horizon / plan
     if len(case['plan']) > 1:
         c = dict(case)
